@@ -166,6 +166,21 @@ def execute(case):
             check_project(projects[pi], models[pi], violations, i, "AB"[pi], {"operands": "n/a", "request": "ctl"})
             log.append((i, "ctl", pi, type(m).__name__))
             continue
+        if k == "bad":
+            # an operation that does not run to completion (refused / raising call, aborted or abandoned
+            # save, raising user callable): the link tables stay what the model says, and so do the
+            # ordinary requests that follow
+            pi = op.get("p", 0) % 2
+            sess = builder.Session(projects[pi], layout=2)
+            sess.foreign = projects[1 - pi]
+            # (the list form of a request with a foreign operand may legitimately apply the local pairs that
+            # precede it - that relaxation belongs to the link op above; here only the single-pair form is used)
+            out = sess._bad(dict(op, v=op.get("v", 0) | 8))
+            probes["failed_operation_between_requests"] = probes.get("failed_operation_between_requests", 0) + 1
+            check_project(projects[pi], models[pi], violations, i, "AB"[pi], {"operands": "n/a", "request": "bad"})
+            check_project(projects[1 - pi], models[1 - pi], violations, i, "AB"[1 - pi], {"operands": "n/a", "request": "bad"})
+            log.append((i, "bad", pi, out))
+            continue
         if k == "reload":
             # the party saves its project, an outside program blanks some unlinked module
             # sections to a bare SEND, and the party reopens the file: a project with empty
@@ -338,6 +353,9 @@ def generate(seed, i, tier="quick"):
             continue
         if r.random() < 0.08:
             ops.append({"k": "ctl", "p": r.randrange(2), "m": r.randrange(100), "v": r.getrandbits(40)})
+            continue
+        if r.random() < 0.06:
+            ops.append(dict(builder.gen_op(r, {"bad": 1}), p=r.randrange(2)))
             continue
         op = builder.gen_link_op(r, foreign_p=fp)
         op["p"] = 0 if r.random() < 0.8 else 1
